@@ -551,19 +551,96 @@ class SNum:
     # numpy ufuncs on objects dispatch to methods of the same name (np.log(x) -> x.log()):
     # transcendental functions are uninterpreted for the solver.
     def log(s):
-        return SNum(UF_LOG(s.e), None)
+        return LogNum(s)
 
     def exp(s):
         return SNum(UF_EXP(s.e), 1)
 
     def log1p(s):
-        return SNum(UF_LOG(1 + s.e), None)
+        return LogNum(1 + s)
+
+    def expm1(s):
+        return SNum(UF_EXP(s.e) - 1, None)
 
     def log2(s):
         return SNum(UF_LOG2(s.e), None)
 
     def __repr__(s):
         return f"<{z3.simplify(s.e)}>"
+
+
+class LogNum:
+    """A symbolic real given as log(r) for a positive real term r (an SNum): the exact model of the log-domain.
+    log/exp are mutually inverse monotone bijections between R and (0, inf), so
+        log r1 + log r2 = log(r1 r2),  -log r = log(1/r),  exp(log r) = r,  log r1 < log r2 <=> r1 < r2.
+    With scores of this type the Log semiring's own methods (np.log, np.exp, np.log1p through the
+    method-dispatch of numpy ufuncs on objects) compute rational functions that z3 can decide."""
+
+    __slots__ = ("r",)
+
+    def __init__(self, r):
+        self.r = r  # SNum or positive python number
+
+    @staticmethod
+    def _r(o):
+        if isinstance(o, LogNum):
+            return o.r
+        if isinstance(o, (int, float)) and not isinstance(o, bool):
+            if o == float("-inf"):
+                return 0
+            if o == float("inf"):
+                raise TypeError("+inf in the log domain")
+            import math
+
+            return Fraction(math.exp(o)) if o != 0 else 1
+        raise TypeError(type(o))
+
+    def __add__(s, o):
+        return LogNum(s.r * LogNum._r(o))
+
+    __radd__ = __add__
+
+    def __sub__(s, o):
+        return LogNum(s.r / LogNum._r(o))
+
+    def __rsub__(s, o):
+        return LogNum(LogNum._r(o) / s.r)
+
+    def __neg__(s):
+        return LogNum(1 / s.r)
+
+    def exp(s):
+        return s.r
+
+    def expm1(s):
+        return s.r - 1
+
+    def __eq__(s, o):
+        try:
+            return s.r == LogNum._r(o)
+        except TypeError:
+            return False
+
+    def __ne__(s, o):
+        return _neg(s.__eq__(o))
+
+    def __lt__(s, o):
+        return s.r < LogNum._r(o)
+
+    def __le__(s, o):
+        return s.r <= LogNum._r(o)
+
+    def __gt__(s, o):
+        return s.r > LogNum._r(o)
+
+    def __ge__(s, o):
+        return s.r >= LogNum._r(o)
+
+    def __hash__(s):
+        return 0
+
+    def __repr__(s):
+        return f"log({s.r!r})"
 
 
 UF_LOG = z3.Function("log", z3.RealSort(), z3.RealSort())
@@ -804,3 +881,240 @@ class ConcNum(Domain):
 
     def wrap(self, term, positive=True):
         return Fraction(term)
+
+
+# --------------------------------------------------------------------------------------
+# SM: a NON-COMMUTATIVE symbolic semiring (2x2 real matrices) for the graph / automaton code,
+# which claims to work over closed semirings in general.  star is defined on the zero matrix only,
+# so it is used on acyclic inputs.
+# --------------------------------------------------------------------------------------
+class SM(Semiring):
+    __slots__ = ("nz",)
+
+    def __init__(self, entries, nz=None):
+        self.score = tuple(entries)
+        self.nz = nz
+
+    @classmethod
+    def chart(cls, *args, **kwargs):
+        return CHART_FACTORY[0](cls, *args, **kwargs)
+
+    def __add__(s, o):
+        if not isinstance(o, SM):
+            return NotImplemented
+        if o.nz is False:
+            return s
+        if s.nz is False:
+            return o
+        return SM([a + b for a, b in zip(s.score, o.score)], True if (s.nz and o.nz) else None)
+
+    def __mul__(s, o):
+        if not isinstance(o, SM):
+            return NotImplemented
+        if s.nz is False or o.nz is False:
+            return SM.zero
+        if s is SM.one:
+            return o
+        if o is SM.one:
+            return s
+        a, b, c, d = s.score
+        e, f, g, h = o.score
+        return SM([a * e + b * g, a * f + b * h, c * e + d * g, c * f + d * h], True if (s.nz and o.nz) else None)
+
+    def star(s):
+        if s.nz is False:
+            return SM.one
+        from .engine import OutOfBounds
+
+        raise OutOfBounds("star of a non-zero matrix weight (the matrix semiring is used on acyclic inputs only)")
+
+    def _eq(s, o):
+        if s is o:
+            return True
+        if s.nz is not None and o.nz is not None and s.nz != o.nz:
+            E.ENG.nshadow += 1
+            return False
+        if s.nz is False and o.nz is False:
+            return True
+        res = True
+        for a, b in zip(s.score, o.score):
+            r = sym_equal(a, b)
+            if r is False:
+                return False
+            if r is not True:
+                if not bool(r):
+                    return False
+        return res
+
+    def __eq__(s, o):
+        return isinstance(o, SM) and s._eq(o)
+
+    def __ne__(s, o):
+        return not s.__eq__(o)
+
+    def metric(s, o):
+        return s.__ne__(o)
+
+    __hash__ = None
+
+    def __repr__(s):
+        return f"<[{', '.join(str(z3.simplify(x)) for x in s.score)}]>"
+
+
+SM.zero = SM([z3.RealVal(0)] * 4, False)
+SM.one = SM([z3.RealVal(1), z3.RealVal(0), z3.RealVal(0), z3.RealVal(1)], None)
+
+
+class QM(Semiring):
+    "concrete twin of SM over Fractions"
+    __slots__ = ()
+
+    def __init__(self, entries):
+        self.score = tuple(Fraction(x) for x in entries)
+
+    @classmethod
+    def chart(cls, *args, **kwargs):
+        return CHART_FACTORY[0](cls, *args, **kwargs)
+
+    def __add__(s, o):
+        return QM([a + b for a, b in zip(s.score, o.score)]) if isinstance(o, QM) else NotImplemented
+
+    def __mul__(s, o):
+        if not isinstance(o, QM):
+            return NotImplemented
+        a, b, c, d = s.score
+        e, f, g, h = o.score
+        return QM([a * e + b * g, a * f + b * h, c * e + d * g, c * f + d * h])
+
+    def star(s):
+        if any(s.score):
+            from .engine import OutOfBounds
+
+            raise OutOfBounds("star of a non-zero matrix weight")
+        return QM.one
+
+    def __eq__(s, o):
+        return isinstance(o, QM) and s.score == o.score
+
+    def __ne__(s, o):
+        return not s.__eq__(o)
+
+    __hash__ = None
+
+
+QM.zero = QM([0, 0, 0, 0])
+QM.one = QM([1, 0, 0, 1])
+
+
+class MatNum:
+    "oracle number adapter for 2x2 matrices (tuples of four numbers); add/mul only"
+
+    def __init__(self, symbolic):
+        from .oracle import Num
+
+        self.s = Num(symbolic)
+        self.symbolic = symbolic
+        z, o = self.s.zero, self.s.one
+        self.zero = (z, z, z, z)
+        self.one = (o, z, z, o)
+
+    def is_zero(self, a):
+        from .oracle import is_zero
+
+        return all(is_zero(x) for x in a)
+
+    def add(self, a, b):
+        return tuple(self.s.add(x, y) for x, y in zip(a, b))
+
+    def mul(self, a, b):
+        s = self.s
+        a1, b1, c1, d1 = a
+        e, f, g, h = b
+        return (s.add(s.mul(a1, e), s.mul(b1, g)), s.add(s.mul(a1, f), s.mul(b1, h)),
+                s.add(s.mul(c1, e), s.mul(d1, g)), s.add(s.mul(c1, f), s.mul(d1, h)))
+
+    def sum(self, xs):
+        r = self.zero
+        for x in xs:
+            r = self.add(r, x)
+        return r
+
+    def prod(self, xs):
+        r = self.one
+        for x in xs:
+            r = self.mul(r, x)
+        return r
+
+
+class SymSM(Domain):
+    symbolic = True
+    R = SM
+    name = "SM"
+    fixed = {}
+    matrix = True
+
+    def __init__(self):
+        self.vars = {}
+
+    def zvar(self, k):
+        v = self.vars.get(k)
+        if v is None:
+            v = self.vars[k] = z3.Real(f"m{k}")
+        return v
+
+    def var(self, k, positive=False):
+        "a free matrix weight: zero, or four positive entries m{4k}..m{4k+3}"
+        f = self.fixed.get(str(k))
+        present = bool(f) if f is not None else (True if positive else not E.ENG.fork_free(z3.Bool(f"absent{k}")))
+        if not present:
+            for i in range(4):
+                E.ENG._assert(self.zvar(4 * k + i) == 0)
+            return SM.zero
+        es = []
+        for i in range(4):
+            v = self.zvar(4 * k + i)
+            E.ENG._assert(v > 0)
+            E.ENG.posvars.add(v.get_id())
+            es.append(v)
+        return SM(es, True)
+
+    def const(self, x):
+        return SM.zero if x == 0 else SM.one
+
+    def term(self, w):
+        if isinstance(w, SM):
+            return tuple(w.score)
+        raise HarnessError(f"not an SM value: {w!r}")
+
+    def is_zero_weight(self, w):
+        return w.nz is False
+
+    def num(self):
+        return MatNum(True)
+
+
+class ConcSM(Domain):
+    symbolic = False
+    R = QM
+    name = "QM"
+    matrix = True
+
+    def __init__(self, values):
+        self.values = {int(k): Fraction(v) for k, v in values.items()}
+
+    def var(self, k, positive=False):
+        return QM([self.values.get(4 * k + i, Fraction(0)) for i in range(4)])
+
+    def const(self, x):
+        return QM.zero if x == 0 else QM.one
+
+    def term(self, w):
+        if isinstance(w, QM):
+            return tuple(w.score)
+        raise HarnessError(f"not a QM value: {w!r}")
+
+    def is_zero_weight(self, w):
+        return not any(w.score)
+
+    def num(self):
+        return MatNum(False)
